@@ -29,6 +29,8 @@ pub enum Op {
     /// only one of the two public fields is written
     SetMin(usize),
     SetMax(usize),
+    /// the caller writes another protocol into the public field `state.version` between two calls
+    SetVersion(u8),
 }
 
 #[derive(Clone, Debug, Serialize, Deserialize)]
@@ -50,6 +52,7 @@ pub fn seq_strategy(p: &Profile, maxlen: usize) -> BoxedStrategy<SeqCase> {
         1 => Just(Op::TakeOutput),
         1 => prop_oneof![(0usize..40, 0usize..40), Just((60usize, 300usize)), (300usize..900).prop_map(|a| (a, a + 50))].prop_map(|(a, b)| Op::SetRange(a, b)),
         1 => prop_oneof![(0usize..60).prop_map(Op::SetMin), (0usize..60).prop_map(Op::SetMax), (200usize..500).prop_map(Op::SetMin)],
+        1 => (0u8..6).prop_map(Op::SetVersion),
     ];
     let last = prop_oneof![1 => Just(Op::Generate), 1 => case::bytes_entropy().prop_map(Op::FromBytes)];
     (case::gencase(p), any::<u64>(), proptest::collection::vec(op, 0..maxlen), last, proptest::bool::weighted(0.25))
@@ -68,7 +71,7 @@ fn entropy_of(base: &GenCase, op: &Op) -> Option<Entropy> {
     match op {
         Op::Generate => Some(base.entropy.clone()),
         Op::FromBytes(b) => Some(Entropy::Bytes(b.clone())),
-        Op::Reset | Op::TakeOutput | Op::SetRange(..) | Op::SetMin(_) | Op::SetMax(_) => None,
+        Op::Reset | Op::TakeOutput | Op::SetRange(..) | Op::SetMin(_) | Op::SetMax(_) | Op::SetVersion(_) => None,
     }
 }
 
@@ -95,6 +98,8 @@ pub fn check_c08(ctx: &Ctx, sc: &SeqCase, st: &mut Stats) -> Result<(), Fail> {
     let mut last_unseeded: Option<Vec<u8>> = None;
     // the opcode range currently configured through the public fields (None: as built)
     let mut range: Option<(usize, usize)> = None;
+    // the protocol the caller wrote last into `state.version` (None: as built)
+    let mut version: Option<u8> = None;
     for (i, op) in sc.ops.iter().enumerate() {
         let Some(e) = entropy_of(&sc.base, op) else {
             match op {
@@ -116,6 +121,11 @@ pub fn check_c08(ctx: &Ctx, sc: &SeqCase, st: &mut Stats) -> Result<(), Fail> {
                     let cur = range.unwrap_or((sc.base.min_opcodes, sc.base.max_opcodes));
                     g.max_opcodes = *b;
                     range = Some((cur.0, *b));
+                }
+                Op::SetVersion(v) => {
+                    g.state.version = pickle_fuzzer::Version::try_from(*v as usize).expect("protocol 0..=5");
+                    version = Some(*v);
+                    st.label("protocol re-written through state.version between calls");
                 }
                 _ => {
                     g.reset();
@@ -150,7 +160,15 @@ pub fn check_c08(ctx: &Ctx, sc: &SeqCase, st: &mut Stats) -> Result<(), Fail> {
             }
             continue;
         }
-        let mut fresh = seq_build(sc);
+        // the fresh generator is BUILT for the protocol the caller holds now (`Generator::new(v)`), not re-written
+        let mut fresh = match version {
+            Some(v) if v != sc.base.protocol => {
+                let mut other = sc.clone();
+                other.base.protocol = v;
+                seq_build(&other)
+            }
+            _ => seq_build(sc),
+        };
         if let Some((a, b)) = range {
             fresh.min_opcodes = a;
             fresh.max_opcodes = b;
@@ -202,7 +220,7 @@ pub fn check_c08(ctx: &Ctx, sc: &SeqCase, st: &mut Stats) -> Result<(), Fail> {
         st.label("has >= 2 generation calls without reset in between");
         st.nontrivial(last_digest ^ util::digest_str(&format!("{:?}", sc.ops.len())));
         st.sample(|| {
-            json!({"config": sc.base.brief(), "ops": sc.ops.iter().map(|o| match o { Op::Generate => "generate".to_string(), Op::Reset => "reset".to_string(), Op::TakeOutput => "take(output)".to_string(), Op::SetRange(a, b) => format!("set_range({},{})", a, b), Op::SetMin(a) => format!("min_opcodes={}", a), Op::SetMax(b) => format!("max_opcodes={}", b), Op::FromBytes(b) => format!("from_bytes[{}]", b.len()) }).collect::<Vec<_>>()})
+            json!({"config": sc.base.brief(), "ops": sc.ops.iter().map(|o| match o { Op::Generate => "generate".to_string(), Op::Reset => "reset".to_string(), Op::TakeOutput => "take(output)".to_string(), Op::SetRange(a, b) => format!("set_range({},{})", a, b), Op::SetMin(a) => format!("min_opcodes={}", a), Op::SetMax(b) => format!("max_opcodes={}", b), Op::SetVersion(v) => format!("state.version={}", v), Op::FromBytes(b) => format!("from_bytes[{}]", b.len()) }).collect::<Vec<_>>()})
         });
     }
     if sc.ops.iter().any(|o| matches!(o, Op::Reset)) {
@@ -327,13 +345,14 @@ fn c14_measure(sc: &SeqCase) -> (i64, i64, bool, bool, u64) {
                 None if matches!(op, Op::TakeOutput) => {
                     let _ = std::mem::take(&mut g.output);
                 }
-                None if matches!(op, Op::SetRange(..) | Op::SetMin(_) | Op::SetMax(_)) => match op {
+                None if matches!(op, Op::SetRange(..) | Op::SetMin(_) | Op::SetMax(_) | Op::SetVersion(_)) => match op {
                     Op::SetRange(a, b) => {
                         g.min_opcodes = *a;
                         g.max_opcodes = *b;
                     }
                     Op::SetMin(a) => g.min_opcodes = *a,
                     Op::SetMax(b) => g.max_opcodes = *b,
+                    Op::SetVersion(v) => g.state.version = pickle_fuzzer::Version::try_from(*v as usize).expect("protocol 0..=5"),
                     _ => {}
                 },
                 None => g.reset(),
